@@ -24,7 +24,7 @@ def rand_policy(rng):
     if rng.random() < 0.1:
         p["wrong_next"] = [rng.choice([2, 4, 8]), rng.choice([1, 2, 4, 8, 0x81, 0x55])]
     if rng.random() < 0.3:
-        p["ask_brothers"] = False
+        p["ask_brothers"] = rng.choice([False, [True, False], [False, True], [False, False, True]])
     if rng.random() < 0.2:
         p["der_tag"] = rng.choice([0x31, 0x30, 0x32])
     if rng.random() < 0.2:
